@@ -815,10 +815,23 @@ func runTokenWorld(t *testing.T, spec kernel.Spec, prop string, weights map[stri
 			if i < 2 {
 				return tw.obtain(ch)
 			}
+			// where the parameters travel is the client's choice: in about one step of six some of them go into the URL
+			// query instead of the body; the endpoint must decide the same way
+			w.QueryKeys = nil
+			inQuery := ""
+			if ch.Bool(1, 6) {
+				w.QueryKeys = ch.Subset([]string{"grant_type", "scope", "client_id", "refresh_token", "code", "token", "token_type_hint", "device_code", "subject_token", "requested_token_type"})
+				if ch.Bool(1, 2) && !slices.Contains(w.QueryKeys, "grant_type") {
+					w.QueryKeys = append(w.QueryKeys, "grant_type")
+				}
+				inQuery = fmt.Sprintf(" [in URL query: %s]", strings.Join(w.QueryKeys, ","))
+				o.Probe("parameters-in-url-query")
+			}
+			defer func() { w.QueryKeys = nil }()
 			x := ch.Int(total)
 			for _, op := range ops {
 				if x < weights[op.name] {
-					return op.f(ch)
+					return op.f(ch) + inQuery
 				}
 				x -= weights[op.name]
 			}
